@@ -50,31 +50,34 @@ func (s *sim) label(v *view, info *txInfo, height uint32) (string, *big.Int) {
 			}
 		}
 	}
-	if s.frozen >= 0 && height >= s.frozenHeight {
-		// C32: from the start height on, no non-coinbase transaction that spends
-		// an output owned by the frozen address or pays to it is accepted.
-		touches := false
+	if s.frozen >= 0 {
+		// C32: from its start height on, no non-coinbase transaction that spends
+		// an output owned by a frozen address or pays to it is accepted. Each
+		// listed address has its own start height.
+		active := func(owner int) bool {
+			return owner >= 0 && (owner == s.frozen && height >= s.frozenHeight || owner == s.frozen2 && height >= s.frozenHeight2)
+		}
+		listed := func(owner int) bool { return owner >= 0 && (owner == s.frozen || owner == s.frozen2) }
+		touches, early := false, false
 		for _, in := range info.facts.ins {
-			if o, ok := v.utxo[in]; ok && o.owner == s.frozen {
-				touches = true
+			if o, ok := v.utxo[in]; ok {
+				touches = touches || active(o.owner)
 			}
 		}
 		for _, o := range info.outs {
-			if o.owner == s.frozen {
-				touches = true
-			}
+			touches = touches || active(o.owner)
+			early = early || listed(o.owner) && !active(o.owner)
 		}
 		if touches {
 			s.c.Probe("tx-touches-frozen-address-at-or-after-start")
+			if s.frozen2 >= 0 && height < max(s.frozenHeight, s.frozenHeight2) {
+				s.c.Probe("tx-touches-frozen-address-while-another-entry-not-yet-active")
+			}
 			if lbl == "" {
 				return "frozen-address", fee
 			}
-		}
-	} else if s.frozen >= 0 {
-		for _, o := range info.outs {
-			if o.owner == s.frozen {
-				s.c.Probe("tx-touches-frozen-address-before-start")
-			}
+		} else if early {
+			s.c.Probe("tx-touches-frozen-address-before-start")
 		}
 	}
 	return lbl, fee
@@ -101,6 +104,24 @@ func (s *sim) applyPolicyKnobs(cfg *config.Configuration) {
 		a := s.actors[s.frozen]
 		ph := a.acc.ProgramHash
 		cfg.FrozenAddresses = []config.FrozenAddress{{Address: a.acc.Address, DisableStartHeight: s.frozenHeight, ProgramHash: &ph}}
+	}
+	// a second entry with its own start height, listed before or after the first
+	s.frozen2 = -1
+	if f2 := p.Knob("frozen2", -1); f2 >= 0 && s.frozen >= 0 {
+		s.frozen2 = mod(int(f2), len(s.actors))
+		s.frozenHeight2 = uint32(p.Knob("frozen2h", 0))
+		if s.frozen2 == s.frozen {
+			s.frozen2 = -1
+		} else {
+			a := s.actors[s.frozen2]
+			ph := a.acc.ProgramHash
+			e := config.FrozenAddress{Address: a.acc.Address, DisableStartHeight: s.frozenHeight2, ProgramHash: &ph}
+			if p.Knob("frozen2first", 0) > 0 {
+				cfg.FrozenAddresses = append([]config.FrozenAddress{e}, cfg.FrozenAddresses...)
+			} else {
+				cfg.FrozenAddresses = append(cfg.FrozenAddresses, e)
+			}
+		}
 	}
 }
 
